@@ -156,7 +156,8 @@ def build(case_dec, which):
             return a
         a = list(a)
         assert len(a) == out_pos, "fresh_out_pos must directly follow the listed arguments"
-        return a + [onp.zeros(tuple(fresh_out[0]), dtype=fresh_out[1])]
+        # (positional options that FOLLOW the buffer, e.g. keepdims of a reduction)
+        return a + [onp.zeros(tuple(fresh_out[0]), dtype=fresh_out[1])] + list(case_dec.get("fresh_out_after") or [])
 
     dup = case_dec.get("dup")
     mod = mods[ns]
@@ -315,7 +316,7 @@ def signature(case_dec, mode):
         "kw": {k: classify(v) for k, v in case_dec["kwargs"].items()},
         "point": case_dec.get("point", "regular"),
     }
-    for k in ("bcast", "tags", "outsel", "dup", "domain", "layout", "outer", "joint", "dup_paths", "fresh_out", "fresh_out_pos"):
+    for k in ("bcast", "tags", "outsel", "dup", "domain", "layout", "outer", "joint", "dup_paths", "fresh_out", "fresh_out_pos", "fresh_out_after"):
         if case_dec.get(k) is not None:
             sig[k] = case_dec[k]
     return sig
